@@ -74,6 +74,8 @@ def mk_cmp(op: str, l: Term, r: Term) -> Term:
     if op == "<" and l == ("K", "FLOAT_MAX") and r[0] != "const":
         return ("const", False)  # FLOAT_MAX < x
     if op in ("==", "!="):
+        if l == r and l[0] in ("K", "param", "self", "phi", "iter", "iterproj"):
+            return ("const", op == "==")  # the same name compared with itself
         a, b = sorted([l, r], key=tkey)
         return ("cmp", op, a, b)
     return ("cmp", op, l, r)
@@ -2099,6 +2101,10 @@ class Walker:
                 # `x is None` with x known to be None (a default argument of an inlined helper), or a fresh object
                 if o in ("is", "is not") and nonish(right) and (nonish(left) or left[0] in ("alloc", "new", "tuple", "dict")):
                     parts.append(("const", nonish(left) == (o == "is")))
+                elif o in ("==", "!=") and {left[0], right[0]} == {"K", "const"} and self._k_value(left, right) is not None:
+                    # a library constant compared with a literal: decided by the constant's value (NIL == 0 is False)
+                    kv, cv = self._k_value(left, right)
+                    parts.append(("const", (kv == cv) == (o == "==")))
                 elif o in ("is", "is not") and nonish(right) and left[0] == "sel" and none_test_of_merge(left) is not None:
                     # `if x is not None: x = normalise(x)` and then `x is not None` again: the same test of the old x
                     t = none_test_of_merge(left)
@@ -2289,6 +2295,9 @@ class Walker:
             if fn in (("mod", "numpy.asarray"), ("mod", "numpy.asanyarray"), ("mod", "numpy.float64")) and (
                     not kwargs or kwargs == (("dtype", ("mod", "numpy.float64")),) or kwargs == (("dtype", ("builtin", "float")),)):
                 return args[0]
+        # operator.index(x) is x for every integer x (and an error otherwise)
+        if fn in (("mod", "operator.index"), ("mod", "_operator.index")) and len(args) == 1 and not kwargs:
+            return args[0]
         # operator.lt(a, b) and friends are the comparisons themselves
         if fn[0] == "mod" and fn[1] in OPERATOR_CMP and len(args) == 2 and not kwargs:
             return mk_cmp(OPERATOR_CMP[fn[1]], args[0], args[1])
@@ -2429,6 +2438,14 @@ class Walker:
         t = ("call", fn, args, kwargs)
         self.emit("call", e, target=fn, value=t, name=fname or show(fn), args=args, kwargs=kwargs)
         return t
+
+    def _k_value(self, a: Term, b: Term):
+        k, cst = (a, b) if a[0] == "K" else (b, a)
+        v = self.repo.constants.get(k[1])
+        if isinstance(v, (int, float)) and not isinstance(v, bool) and isinstance(cst[1], (int, float)) \
+                and not isinstance(cst[1], bool):
+            return v, cst[1]
+        return None
 
     def _positional(self, meth: str, args, kwargs, fi=None):
         """`g.create_arcs(k=best_k, distance_function=f)` is `g.create_arcs(best_k, f)`: keyword arguments of a call to a
